@@ -91,6 +91,11 @@ type ObsClient map[string]*ObsTable
 type Observer struct {
 	W     *World
 	Calls int
+	// R orders the reads of one observation (its own stream, derived from the
+	// run seed: the generator's draws are not disturbed). A fixed order would
+	// reset whatever the library remembers from its last read in the same way
+	// after every step.
+	R *Rng
 }
 
 // Observe reads every table name of the universe on one client. Which
@@ -126,38 +131,61 @@ func (ob *Observer) observeTable(d Driver, mc *MClient, u *TableUni) *ObsTable {
 		return t
 	}
 	def := mt.Def
+	var jobs []func()
 	for _, k := range u.KeysOf(def) {
-		g := ob.exec(d, &Cmd{Op: "Get", T: u.Name, Key: k})
-		if g.Class != "ok" {
-			t.Gets[k.Canon()] = "!" + g.Class
-		} else {
-			t.Gets[k.Canon()] = g.Item.Canon()
-		}
+		k := k
+		jobs = append(jobs, func() {
+			g := ob.exec(d, &Cmd{Op: "Get", T: u.Name, Key: k})
+			if g.Class != "ok" {
+				t.Gets[k.Canon()] = "!" + g.Class
+			} else {
+				t.Gets[k.Canon()] = g.Item.Canon()
+			}
+		})
 	}
-	t.Scan = seqOf(ob.exec(d, &Cmd{Op: "Scan", T: u.Name}))
+	jobs = append(jobs, func() { t.Scan = seqOf(ob.exec(d, &Cmd{Op: "Scan", T: u.Name})) })
 	if def.Range != nil {
 		for _, h := range u.HashVals {
 			if h.T != def.Hash.Type {
 				continue
 			}
 			h := h
-			t.Parts[h.Canon()+"/f"] = seqOf(ob.exec(d, &Cmd{Op: "Query", T: u.Name, HashAttr: def.Hash.Name, Part: &h}))
-			t.Parts[h.Canon()+"/b"] = seqOf(ob.exec(d, &Cmd{Op: "Query", T: u.Name, HashAttr: def.Hash.Name, Part: &h, Back: true}))
+			jobs = append(jobs, func() {
+				t.Parts[h.Canon()+"/f"] = seqOf(ob.exec(d, &Cmd{Op: "Query", T: u.Name, HashAttr: def.Hash.Name, Part: &h}))
+			})
+			jobs = append(jobs, func() {
+				t.Parts[h.Canon()+"/b"] = seqOf(ob.exec(d, &Cmd{Op: "Query", T: u.Name, HashAttr: def.Hash.Name, Part: &h, Back: true}))
+			})
 		}
 	}
 	for _, ix := range def.Indexes {
+		ix := ix
 		oi := &ObsIndex{Parts: map[string]Seq{}}
-		oi.Scan = seqOf(ob.exec(d, &Cmd{Op: "Scan", T: u.Name, Index: ix.Name}))
+		jobs = append(jobs, func() { oi.Scan = seqOf(ob.exec(d, &Cmd{Op: "Scan", T: u.Name, Index: ix.Name})) })
 		vals := idxPartVals(u, def, ix)
 		for _, h := range vals {
 			if h.T != ix.Hash.Type {
 				continue
 			}
 			h := h
-			oi.Parts[h.Canon()+"/f"] = seqOf(ob.exec(d, &Cmd{Op: "Query", T: u.Name, Index: ix.Name, HashAttr: ix.Hash.Name, Part: &h}))
-			oi.Parts[h.Canon()+"/b"] = seqOf(ob.exec(d, &Cmd{Op: "Query", T: u.Name, Index: ix.Name, HashAttr: ix.Hash.Name, Part: &h, Back: true}))
+			jobs = append(jobs, func() {
+				oi.Parts[h.Canon()+"/f"] = seqOf(ob.exec(d, &Cmd{Op: "Query", T: u.Name, Index: ix.Name, HashAttr: ix.Hash.Name, Part: &h}))
+			})
+			jobs = append(jobs, func() {
+				oi.Parts[h.Canon()+"/b"] = seqOf(ob.exec(d, &Cmd{Op: "Query", T: u.Name, Index: ix.Name, HashAttr: ix.Hash.Name, Part: &h, Back: true}))
+			})
 		}
 		t.Idx[ix.Name] = oi
+	}
+	order := make([]int, len(jobs))
+	for i := range order {
+		order[i] = i
+	}
+	if ob.R != nil {
+		order = ob.R.Perm(len(jobs))
+	}
+	for _, i := range order {
+		jobs[i]()
 	}
 	return t
 }
@@ -190,10 +218,12 @@ func orderOK(items []Item, rng *KeyDef, back bool) bool {
 	if rng == nil {
 		return true
 	}
-	if (rng.Type == "N" || rng.Type == "B") && KnownTriggers["number-sort-key-order"] && !WitnessMode {
-		// listed finding (number/binary sort keys are ordered by their text): every
-		// violation of the order clause over such a key satisfies its trigger, so it
-		// is not raised - the run goes on and the result SET is still checked
+	if (rng.Type == "N" || rng.Type == "B") && KnownTriggers["number-sort-key-order"] && !WitnessMode && (rng.Type == "B" || textOrderDiffers(items, rng.Name)) {
+		// listed finding (number/binary sort keys are ordered by their text): a
+		// violation of the order clause over binary keys, or over numbers whose
+		// order by value and by text differ somewhere in this result, satisfies its
+		// trigger, so it is not raised - the run goes on and the result SET is
+		// still checked. Numbers that read the same either way are checked.
 		OrderSkipped++
 		return true
 	}
@@ -207,6 +237,37 @@ func orderOK(items []Item, rng *KeyDef, back bool) bool {
 		}
 	}
 	return true
+}
+
+// sortKeyDesc names the sort key type in order failures; for numbers it says
+// whether the listed finding (order by text) can be what is seen.
+func sortKeyDesc(items []Item, rng *KeyDef) string {
+	if rng.Type != "N" {
+		return rng.Type
+	}
+	if textOrderDiffers(items, rng.Name) {
+		return "N, ordered differently by value and by text"
+	}
+	return "N, ordered alike by value and by text"
+}
+
+// textOrderDiffers: some pair of the numbers under attr compares differently
+// by value and as text (the numerals as the requests spelled them).
+func textOrderDiffers(items []Item, attr string) bool {
+	for i := range items {
+		for j := i + 1; j < len(items); j++ {
+			a, b := items[i][attr], items[j][attr]
+			c, ok := CmpScalar(a, b)
+			if !ok || a.T != "N" || b.T != "N" {
+				return true
+			}
+			t := strings.Compare(a.S, b.S)
+			if (c < 0) != (t < 0) || (c > 0) != (t > 0) {
+				return true
+			}
+		}
+	}
+	return false
 }
 
 func sameStrings(a, b []string) bool {
@@ -332,7 +393,7 @@ func compareSeq(table, index, comp, ordComp, pk string, seq Seq, want []Item, rn
 		for i, it := range seq.Items {
 			ss[i] = it.Canon()
 		}
-		out = append(out, Diff{table, ordComp, index, fmt.Sprintf("Query %s not in sort-key order (backward=%v, sort key type %s): %s", pk, back, rng.Type, brief(ss))})
+		out = append(out, Diff{table, ordComp, index, fmt.Sprintf("Query %s not in sort-key order (backward=%v, sort key type %s): %s", pk, back, sortKeyDesc(seq.Items, rng), brief(ss))})
 	}
 	if seq.LEK {
 		out = append(out, Diff{table, comp, index, "Query " + pk + " without Limit returned a LastEvaluatedKey"})
